@@ -2,9 +2,10 @@
 (* B3 for C10: the optimisation laws, decided by TLC on the model.               *)
 (* Universe: all call trees of depth <= 2 (one nested argument at depth 2) over  *)
 (* the modelled helpers (typed-integer, strict, lazy, compile-time-argument,      *)
-(* volatile `time now/live/delta`, four funcs-file functions) with constant,      *)
+(* volatile `time now/live/delta`, six funcs-file functions) with constant,      *)
 (* dynamic and mixed arguments, plus all stage sequences of length <= 3 over a    *)
-(* mixed set of stages; all contexts over {"", "0", "7", "a"} (including the      *)
+(* mixed set of stages; all contexts over {"", "0", "7", "a"} (quick: the key      *)
+(* over {"", "a"}; always including the                                           *)
 (* all-empty context the optimiser probes with); compile clock 100, evaluation    *)
 (* clocks 100 and 103.                                                            *)
 (* One header state per group, its successors are the group's trees (different    *)
@@ -37,7 +38,9 @@ Defs == <<
   [name |-> "u2", body |-> <<Key(Kk), Lit(<<45>>), Call("if", <<T1(Grp(0)), T1(Grp(1)), T1(Grp(2))>>)>>],
   [name |-> "u3", body |-> <<Call("time", <<L(KwLive)>>), Lit(<<58>>), Grp(0)>>],
   [name |-> "u4", body |-> T1(Call("u1", <<T1(Grp(1)), T1(Call("u1", <<T1(Grp(0)), L(B7)>>))>>))],
-  [name |-> "u5", body |-> <<Call("coalesce", <<T1(Grp(1)), T1(Key(Kk)), L(<<122>>)>>), Call("time", <<L(KwDelta)>>)>>]
+  [name |-> "u5", body |-> <<Call("coalesce", <<T1(Grp(1)), T1(Key(Kk)), L(<<122>>)>>), Call("time", <<L(KwDelta)>>)>>],
+  \* a later definition calling earlier ones: arguments swapped, a quoted literal with two blanks, key pass-through two levels down
+  [name |-> "u6", body |-> <<Call("u2", <<T1(Grp(1)), L(<<113, 32, 32, 114>>), T1(Grp(0))>>), Lit(<<46>>), Call("u5", <<L(E), T1(Grp(0))>>)>>]
 >>
 
 \* argument templates: constants, dynamic values, one mixed literal+group argument
@@ -49,7 +52,7 @@ H1 == {"not", "len", "upper", "isint"} \cup (IF WithBad THEN {"badlive"} ELSE {}
 H2 == {"eq", "sumi", "multi", "divi", "unless", "coalesce", "and", "or", "bucket", "tab", "if", "switch"}
 H3 == {"if", "clamp", "switch", "sumi", "coalesce"}
 U1 == {"u3"}
-U2 == {"u1", "u2", "u4", "u5"}
+U2 == {"u1", "u2", "u4", "u5", "u6"}
 U3 == {"u2"}
 
 C1(F, A) == {T1(Call(f, <<a>>)) : f \in F, a \in A}
@@ -70,9 +73,10 @@ StageSet == {Lit(<<120>>), Lit(<<32>>), Grp(0), Key(Kk),
              Call("u3", <<L(Ba)>>)}
 
 Other2 == IF Thorough THEN AtomsOut \cup {T1(Key(Kk))} ELSE {L(B7), T1(Grp(1))}
-Outer2 == IF Thorough THEN H2 \cup U2 ELSE {"sumi", "if", "eq", "coalesce", "and", "bucket", "u1", "u2"}
+Outer2 == IF Thorough THEN H2 \cup U2 ELSE {"sumi", "if", "coalesce", "bucket", "u1", "u2"}
 Groups == {<<"d1", f>> : f \in H1 \cup H2 \cup H3 \cup U1 \cup U2 \cup U3} \cup {<<"vol", "">>, <<"seq", "">>}
           \cup {<<"d2a", f>> : f \in H1 \cup U1} \cup {<<"d2b", f>> : f \in Outer2} \cup {<<"d2c", f>> : f \in Outer2}
+          \cup {<<"d2u", f>> : f \in {"u2", "u4", "u6"}}
 
 Trees(g) ==
   LET f == g[2] IN
@@ -85,19 +89,22 @@ Trees(g) ==
     [] g[1] = "d2a" -> C1({f}, Inner)
     [] g[1] = "d2b" -> C2({f}, Inner, Other2)
     [] g[1] = "d2c" -> C2({f}, Other2, Inner)
+    \* a funcs-file function whose argument is a call of the same function: the call sites inside its body are
+    \* entered again while they are active
+    [] g[1] = "d2u" -> {T1(Call(f, <<a, T1(Call(f, <<b, d>>))>>)) : a, b \in {L(B7), T1(Grp(0)), T1(Key(Kk))}, d \in {L(B0), T1(Grp(1)), L(E)}}
+                       \cup {T1(Call(f, <<T1(Call(f, <<b, d>>)), a>>)) : a, b \in {L(B7), T1(Grp(0)), T1(Key(Kk))}, d \in {L(B0), T1(Grp(1)), L(E)}}
 
 \* contexts: every assignment of the two groups and the key over Vals (depth 1, sequences);
 \* depth 2: both groups over Vals, the key over two values
 Ctx(g0, g1, k) == Base(<<g0, g1>>, <<<<Kk, k>>>>)
-CtxAll == {Ctx(g0, g1, k) : g0, g1, k \in Vals} \cup {EmptyBase}
+CtxAll == {Ctx(g0, g1, k) : g0, g1 \in Vals, k \in (IF Thorough THEN Vals ELSE {E, Ba})} \cup {EmptyBase}
 CtxD2  == {Ctx(g0, g1, k) : g0 \in Vals, g1 \in {E, B7}, k \in (IF Thorough THEN Vals ELSE {E, Ba})} \cup {EmptyBase}
-CtxOf(g) == IF g[1] \in {"d2a", "d2b", "d2c"} THEN CtxD2 ELSE CtxAll
-Clocks == {[c |-> 100, e |-> 100], [c |-> 100, e |-> 103]}
+CtxOf(g) == IF g[1] \in {"d2a", "d2b", "d2c", "d2u"} THEN CtxD2 ELSE CtxAll
 
 \* ---------------------------------------------------------------- the laws
 K0 == 100                                      \* compile clock
 RECURSIVE UsesClockT(_)
-UsesClockN(nd) == nd.t = "call" /\ (nd.f \in {"time", "badlive", "u3", "u5"} \/ \E i \in 1..Len(nd.args) : UsesClockT(nd.args[i]))
+UsesClockN(nd) == nd.t = "call" /\ (nd.f \in {"time", "badlive", "u3", "u5", "u6"} \/ \E i \in 1..Len(nd.args) : UsesClockT(nd.args[i]))
 UsesClockT(t) == \E i \in 1..Len(t) : UsesClockN(t[i])
 Evals(t) == IF UsesClockT(t) THEN {100, 103} ELSE {103}      \* evaluation clocks
 CDefs == CompDefs(Defs, K0, <<>>)              \* the loaded (compiled) definitions
@@ -117,11 +124,11 @@ LawsOn(t, ctxs) ==
        LET vO == ExecT(ctO, ctx, e).v
            vN == ExecT(ctN, ctx, e).v
        IN /\ vO = vN                                                        \* L1
-          /\ AbsOK(ValT(t, ctx, [c |-> K0, e |-> e], Defs), vO)             \* L2
+          /\ AbsOK(ValT(t, ctx, ClkAt(K0, e), Defs), vO)             \* L2
           /\ (p.n = 0 => vN = p.v)                                          \* L3
           /\ (IsUdfCall(t) => ExecT(sub, ctx, e).v = vO)                    \* L4
 
-LawOK == c.hdr \/ LawsOn(c.t, CtxOf(c.g))
+LawOK == IF c.hdr THEN WellScoped(Defs) ELSE LawsOn(c.t, CtxOf(c.g))
 
 \* L5  a volatile stage is never folded: the optimised form of a tree that reaches the clock
 \*     still changes with the clock (checked on the volatile group)
@@ -130,8 +137,10 @@ LawVolatile ==
      LET ct == CompT(c.t, TRUE, K0, CDefs) IN ExecT(ct, EmptyBase, 100).v # ExecT(ct, EmptyBase, 103).v
 
 \* how many (tree, context, clock) cases demand something of the value (for the evidence)
-Demanding == c.hdr \/ \E ctx \in CtxOf(c.g) : Demands(ValT(c.t, ctx, [c |-> K0, e |-> 103], Defs))
+Demanding == c.hdr \/ \E ctx \in CtxOf(c.g) : Demands(ValT(c.t, ctx, ClkAt(K0, 103), Defs))
 
 Init == c \in {[hdr |-> TRUE, g |-> g, t |-> <<>>] : g \in Groups}
+\* the groups in which the negative controls (WithBad = TRUE, Fixed = FALSE) must fail
+InitNeg == c \in {[hdr |-> TRUE, g |-> g, t |-> <<>>] : g \in {gg \in Groups : gg[1] = "d1" /\ gg[2] \in {"badlive", "u3", "u5"}}}
 Next == c.hdr /\ \E t \in Trees(c.g) : c' = [hdr |-> FALSE, g |-> c.g, t |-> t]
 =============================================================================
